@@ -3,7 +3,7 @@
 //! of F with buffer text}; oracle: the single-analysis state of the editor's last content.
 
 use crate::checks::c09::{explore_scenario, set_placement};
-use crate::e1::{analyze, analyze_fresh, describe, snap, Scenario};
+use crate::e1::{analyze, analyze_fresh, describe, snap, Op, Scenario};
 use crate::report::{is_thorough, Report};
 use pytest_language_server::FixtureDatabase;
 use serde_json::{json, Value};
@@ -28,23 +28,78 @@ pub struct Case {
     /// a further change used for the restoration clause
     pub next: &'static str,
     pub with_g: bool,
+    /// when set: the reference state is these operations run one after the other on a fresh index
+    /// (the scan finishing first, then the editor's notifications) instead of the bare single analysis
+    pub reference: Option<Vec<Op>>,
+}
+
+const ENTRY_STAR: &str = "from conftest import *\n";
+const ENTRY_PLUGINS: &str = "pytest_plugins = [\"conftest\"]\n";
+
+fn mark_plugin(rel: &'static str) -> Op {
+    Op { desc: format!("pytest11 entry point registers {}", rel), f: Arc::new(move |db| { db.plugin_fixture_files.insert(crate::e1::p(rel), ()); }) }
+}
+fn phase4() -> Op {
+    Op { desc: "scan's last phase: scan_imported_fixture_modules (marks modules pulled in by plugins, re-analyses the cached ones)".into(),
+         f: Arc::new(|db| db.verif_scan_imported_fixture_modules(&crate::e1::p("ws"))) }
+}
+
+/// The scan's last phase ∥ editor notifications for a conftest.py that an entry-point plugin of the
+/// workspace (editable install of the project itself) pulls in: the phase re-analyses that file.
+fn phase4_cases(thorough: bool) -> Vec<Case> {
+    let mut v = Vec::new();
+    let f = "ws/conftest.py";
+    for (how, entry) in [("star import", ENTRY_STAR), ("pytest_plugins", ENTRY_PLUGINS)] {
+        if how == "pytest_plugins" && !thorough {
+            continue;
+        }
+        // the scan visited F (disk) and the plugin entry module; the editor opened F before the last phase
+        let pre_open = vec![mark_plugin("ws/entry_plugin.py"), analyze_fresh("ws/entry_plugin.py", entry), analyze_fresh(f, C_DISK), analyze(f, C_BUF)];
+        let mut r = pre_open.clone();
+        r.extend([phase4(), analyze(f, C_BUF2)]);
+        v.push(Case { sc: Scenario { name: format!("{}: plugin pulls F in by {}; F open in the editor; scan's last phase ∥ didChange(buffer')", f, how), pre: pre_open.clone(), threads: vec![vec![phase4()], vec![analyze(f, C_BUF2)]] }, file: f, last: C_BUF2, next: C_BUF3, with_g: false, reference: Some(r) });
+        // F not yet open: didOpen arrives during the last phase
+        let pre = vec![mark_plugin("ws/entry_plugin.py"), analyze_fresh("ws/entry_plugin.py", entry), analyze_fresh(f, C_DISK)];
+        let mut r = pre.clone();
+        r.extend([phase4(), analyze(f, C_BUF)]);
+        v.push(Case { sc: Scenario { name: format!("{}: plugin pulls F in by {}; scan's last phase ∥ didOpen(buffer != disk)", f, how), pre, threads: vec![vec![phase4()], vec![analyze(f, C_BUF)]] }, file: f, last: C_BUF, next: C_BUF3, with_g: false, reference: Some(r) });
+    }
+    v
 }
 
 pub fn cases(thorough: bool) -> Vec<Case> {
     let mut v = Vec::new();
     for (file, disk, buf, buf2, buf3) in [("ws/test_f.py", T_DISK, T_BUF, T_BUF2, T_BUF3), ("ws/conftest.py", C_DISK, C_BUF, C_BUF2, C_BUF3)] {
         // buffer == disk, didOpen only
-        v.push(Case { sc: Scenario { name: format!("{}: scan(disk) ∥ didOpen(buffer == disk)", file), pre: vec![], threads: vec![vec![analyze_fresh(file, disk)], vec![analyze(file, disk)]] }, file, last: disk, next: buf3, with_g: false });
+        v.push(Case { sc: Scenario { name: format!("{}: scan(disk) ∥ didOpen(buffer == disk)", file), pre: vec![], threads: vec![vec![analyze_fresh(file, disk)], vec![analyze(file, disk)]] }, file, last: disk, next: buf3, with_g: false, reference: None });
         // buffer != disk, didOpen only
-        v.push(Case { sc: Scenario { name: format!("{}: scan(disk) ∥ didOpen(buffer != disk)", file), pre: vec![], threads: vec![vec![analyze_fresh(file, disk)], vec![analyze(file, buf)]] }, file, last: buf, next: buf3, with_g: false });
+        v.push(Case { sc: Scenario { name: format!("{}: scan(disk) ∥ didOpen(buffer != disk)", file), pre: vec![], threads: vec![vec![analyze_fresh(file, disk)], vec![analyze(file, buf)]] }, file, last: buf, next: buf3, with_g: false, reference: None });
         // didOpen then didChange
-        v.push(Case { sc: Scenario { name: format!("{}: scan(disk) ∥ didOpen(buffer) ; didChange(buffer')", file), pre: vec![], threads: vec![vec![analyze_fresh(file, disk)], vec![analyze(file, buf), analyze(file, buf2)]] }, file, last: buf2, next: buf3, with_g: false });
+        v.push(Case { sc: Scenario { name: format!("{}: scan(disk) ∥ didOpen(buffer) ; didChange(buffer')", file), pre: vec![], threads: vec![vec![analyze_fresh(file, disk)], vec![analyze(file, buf), analyze(file, buf2)]] }, file, last: buf2, next: buf3, with_g: false, reference: None });
         if thorough {
             // a second scan worker on another file G sharing names
-            v.push(Case { sc: Scenario { name: format!("{}: scan(disk) ∥ didOpen(buffer != disk) ∥ scan(G)", file), pre: vec![], threads: vec![vec![analyze_fresh(file, disk)], vec![analyze(file, buf)], vec![analyze_fresh("ws/sub/test_g.py", G_TEXT)]] }, file, last: buf, next: buf3, with_g: true });
+            v.push(Case { sc: Scenario { name: format!("{}: scan(disk) ∥ didOpen(buffer != disk) ∥ scan(G)", file), pre: vec![], threads: vec![vec![analyze_fresh(file, disk)], vec![analyze(file, buf)], vec![analyze_fresh("ws/sub/test_g.py", G_TEXT)]] }, file, last: buf, next: buf3, with_g: true, reference: None });
         }
     }
+    v.extend(phase4_cases(thorough));
     v
+}
+
+fn reference_state(c: &Case, then: Option<&str>) -> Vec<String> {
+    let Some(ops) = c.reference.clone() else {
+        return single_analysis_state(c, then.unwrap_or(c.last));
+    };
+    let (file, then) = (c.file.to_string(), then.map(|t| t.to_string()));
+    crate::seed::on_fresh_thread(move || {
+        let db = Arc::new(FixtureDatabase::new());
+        for op in &ops {
+            (op.f)(&db);
+        }
+        if let Some(t) = &then {
+            db.analyze_file(crate::e1::p(&file), t);
+        }
+        snap(&db)
+    })
 }
 
 fn single_analysis_state(c: &Case, text: &str) -> Vec<String> {
@@ -86,8 +141,8 @@ pub fn run(rep: &'static Report) {
     for (collide, pname) in [(true, "Collide"), (false, "Split")] {
         set_placement(collide);
         for c in &cs {
-            let want = single_analysis_state(c, c.last);
-            let want_next = single_analysis_state(c, c.next);
+            let want = reference_state(c, None);
+            let want_next = reference_state(c, Some(c.next));
             let bound = match (c.sc.threads.len(), thorough) {
                 (2, false) => 2,
                 (2, true) => 4,
@@ -152,6 +207,11 @@ pub fn run(rep: &'static Report) {
             println!("  {} [{}] P≤{}: {} schedules, {} quiescent states, {} schedules end wrong", c.sc.name, pname, bound, stats.schedules, q.len(), w);
         }
     }
+    // sequential layer on real trees: the notification lands before the whole scan or after it
+    // (the two end points of "whatever the relative timing"), for every role a file can play in a
+    // workspace that is itself an installed (editable) pytest plugin
+    let tree_stats = real_tree_layer(rep);
+    rep.set("real_tree_layer", tree_stats);
     // conformance with the real server (free-running, decides nothing by itself): initialize on a
     // workspace whose F exists on disk and immediately open F with a different buffer, without
     // waiting for the scan; afterwards the server must describe the buffer exactly once
@@ -202,7 +262,110 @@ pub fn run(rep: &'static Report) {
     rep.assume("the tokio layer is represented by model threads calling the same functions main.rs calls (did_open/did_change → analyze_file; scan phase 2 → analyze_file_fresh)");
 }
 
+fn plugin_ws(alt: Option<(&str, u8)>) -> crate::ws::Ws {
+    use crate::ws::{FileSpec, Item, Ws};
+    let mut files = vec![
+        FileSpec::new("conftest.py", vec![Item::fixture("root_fx", &[])]),
+        FileSpec { rel: "plug/myplug.py".into(), plugin: true, items: vec![Item::StarImport { module: "shared".into() }, Item::StarImport { module: "conftest".into() }, Item::PytestPlugins { modules: vec!["more".into()] }, Item::fixture("pfx", &[])] },
+        FileSpec::new("plug/shared.py", vec![Item::fixture("shx", &[])]),
+        FileSpec::new("plug/more.py", vec![Item::fixture("mx", &[])]),
+        FileSpec::new("plug/conftest.py", vec![Item::fixture("cfx", &["shx"])]),
+        FileSpec::new("plug/test_p.py", vec![Item::fixture("lx", &["pfx"]), Item::test("p", &["lx", "cfx", "mx"])]),
+        FileSpec::new("tests/test_a.py", vec![Item::test("a", &["root_fx", "pfx", "shx", "mx"])]),
+    ];
+    if let Some((rel, version)) = alt {
+        let f = files.iter_mut().find(|f| f.rel == rel).expect("file");
+        // the editor's content: the first fixture renamed and moved down, one more fixture; tests request it
+        let tag = if version == 0 { "edited" } else { "edited_again" };
+        let mut items: Vec<Item> = f.items.iter().filter(|i| !matches!(i, Item::Fixture { .. } | Item::Test { .. })).cloned().collect();
+        items.push(Item::Raw("X = 1\nY = 2".into()));
+        items.push(Item::fixture(&format!("{}_fx", tag), &[]));
+        if version == 0 {
+            items.push(Item::fixture("extra_fx", &[&format!("{}_fx", tag)]));
+        }
+        if rel.contains("test_") {
+            items.push(Item::test("z", &[&format!("{}_fx", tag), "root_fx"]));
+        }
+        f.items = items;
+    }
+    Ws { files }
+}
+
+/// didOpen(F, buffer) entirely before / entirely after the real scan_workspace of a real tree in
+/// which F plays every role (plain conftest, test file, entry-point module of an editable install,
+/// module star-imported by it, conftest star-imported by it, module in its pytest_plugins);
+/// reference = the scan of a twin tree whose F already holds the buffer on disk.
+fn real_tree_layer(rep: &'static Report) -> Value {
+    use crate::db::{index_snapshot, IndexParts};
+    let base = plugin_ws(None);
+    let rels: Vec<String> = base.files.iter().map(|f| f.rel.clone()).collect();
+    let (mut runs, mut roles) = (0u64, 0u64);
+    let scan_snapshot = |ws: &crate::ws::Ws, edits_before: &[(String, String)], edits_after: &[(String, String)], disk: &crate::ws::Ws| -> Vec<String> {
+        let sc = crate::e5::Scratch::new("c10t");
+        let root = sc.path().join("ws");
+        let _ = ws;
+        crate::e5::materialize_with_venv(disk, &disk.render(), &root);
+        let rs = root.to_string_lossy().to_string();
+        let (b, a) = (edits_before.to_vec(), edits_after.to_vec());
+        let root2 = root.clone();
+        crate::seed::on_fresh_thread(move || {
+            let db = FixtureDatabase::new();
+            for (rel, text) in &b {
+                db.analyze_file(root2.join(rel), text);
+            }
+            db.scan_workspace(&root2);
+            for (rel, text) in &a {
+                db.analyze_file(root2.join(rel), text);
+            }
+            index_snapshot(&db, &rs, IndexParts::CORE)
+        })
+    };
+    for rel in &rels {
+        roles += 1;
+        let edited = plugin_ws(Some((rel, 0)));
+        let edited2 = plugin_ws(Some((rel, 1)));
+        let fi = base.file_index(rel).unwrap();
+        let buf = edited.render().texts[fi].clone();
+        let buf2 = edited2.render().texts[fi].clone();
+        // reference: the twin trees
+        let want = scan_snapshot(&edited, &[], &[], &edited);
+        let want2 = scan_snapshot(&edited2, &[], &[], &edited2);
+        for (timing, before, after) in [
+            ("didOpen before the scan", vec![(rel.clone(), buf.clone())], vec![]),
+            ("didOpen after the scan", vec![], vec![(rel.clone(), buf.clone())]),
+            ("didOpen before the scan, didChange after it", vec![(rel.clone(), buf.clone())], vec![(rel.clone(), buf2.clone())]),
+            ("didOpen and didChange before the scan", vec![(rel.clone(), buf.clone()), (rel.clone(), buf2.clone())], vec![]),
+        ] {
+            runs += 1;
+            let got = scan_snapshot(&base, &before, &after, &base);
+            let w = if timing.contains("didChange") { &want2 } else { &want };
+            if got != *w {
+                let role = match rel.as_str() {
+                    "plug/myplug.py" => "entry-point module of the editable install",
+                    "plug/shared.py" => "module star-imported by the plugin",
+                    "plug/more.py" => "module in the plugin's pytest_plugins",
+                    "plug/conftest.py" => "conftest.py star-imported by the plugin",
+                    "plug/test_p.py" => "test file inside the plugin directory",
+                    "conftest.py" => "plain conftest.py",
+                    _ => "plain test file",
+                };
+                let fp = format!("real scan + {}: the index does not describe the buffer exactly once ({}): {}", timing, role, classify(&got, w, rel));
+                if !rep.count_if_seen(&fp) {
+                    let extra: Vec<&String> = got.iter().filter(|l| !w.contains(l)).collect();
+                    let missing: Vec<&String> = w.iter().filter(|l| !got.contains(l)).collect();
+                    rep.violation(&fp, &format!("{}: extra {:?}, missing {:?}", rel, extra, missing), || json!({"real_tree": true, "file": rel, "timing": timing, "buffer": buf, "buffer2": buf2}));
+                }
+            }
+        }
+    }
+    json!({"file_roles": roles, "timings": 4, "scans_compared_with_twin_tree": runs})
+}
+
 pub fn replay(v: &Value) {
+    if v["real_tree"] == true {
+        println!("real-tree case: file {} timing `{}`; buffer:\n{}", v["file"], v["timing"].as_str().unwrap_or(""), v["buffer"].as_str().unwrap_or(""));
+        return;
+    }
     let name = v["scenario"]["name"].as_str().unwrap_or("");
     let c = cases(true).into_iter().find(|c| c.sc.name == name).expect("scenario");
     set_placement(v["placement"] == "Collide");
@@ -211,7 +374,7 @@ pub fn replay(v: &Value) {
     for l in vsched::trace_to_strings(&r.outcome) {
         println!("{}", l);
     }
-    let want = single_analysis_state(&c, c.last);
+    let want = reference_state(&c, None);
     println!("abort: {:?}", r.outcome.abort);
     if let Some(s) = &r.snapshot {
         println!("equals single analysis of the editor's content: {}", *s == want);
